@@ -550,23 +550,32 @@ Definition adopt (s : st) (self : unit) (rv : inp) (deleted : nat) : res (st * n
 
 Definition nth_in (U : unit) (n : nat) : inp := nth n (ins U) (K 0).
 
+(* `isinstance(x, cls) [and x.operator == op] and len(x._descendants) == 1` *)
+Definition sole (s : st) (v : inp) (k : kind) (op : string) : res (option unit) :=
+  match direct_is s v k op with
+  | Some UA => do o <- one_desc s UA; Ok (if o then Some UA else None)
+  | None => Ok None
+  end.
+(* `self._synthdef._remove_ugen(x); replacement = <ctor>; replacement._descendants = self._descendants;
+   self._optimize_update_descendants(replacement, x); return replacement` *)
+Definition absorb (s : st) (self UA : unit) (mk : st -> res (st * inp)) : res (st * option nat) :=
+  let s1 := remove_ugen s (uid UA) in
+  do2 s2, rv <- mk s1;
+  do2 s3, r <- adopt s2 self rv (uid UA);
+  Ok (s3, Some r).
+
 Definition opt_sum3 (s : st) (self : unit) : res (st * option nat) :=
   let a := nth_in self 0 in let b := nth_in self 1 in
   if rate_eqb (vrate s a) Demand || rate_eqb (vrate s b) Demand then Ok (s, None) else
-  do ta <- match direct_is s a KBin "+" with Some UA => do o <- one_desc s UA; Ok (if o then Some UA else None) | None => Ok None end;
+  do ta <- sole s a KBin "+";
   match ta with
   | Some UA =>
-      let s1 := remove_ugen s (uid UA) in
-      do2 s2, rv <- (if inp_eqb a b then sum4_new1 s1 (nth_in UA 0) (nth_in UA 0) (nth_in UA 1) (nth_in UA 1)
-                       else sum3_new1 s1 (nth_in UA 0) (nth_in UA 1) b);
-      do2 s3, r <- adopt s2 self rv (uid UA); Ok (s3, Some r)
+      absorb s self UA (fun s1 => if inp_eqb a b then sum4_new1 s1 (nth_in UA 0) (nth_in UA 0) (nth_in UA 1) (nth_in UA 1)
+                                  else sum3_new1 s1 (nth_in UA 0) (nth_in UA 1) b)
   | None =>
-      do tb <- match direct_is s b KBin "+" with Some UB => do o <- one_desc s UB; Ok (if o then Some UB else None) | None => Ok None end;
+      do tb <- sole s b KBin "+";
       match tb with
-      | Some UB =>
-          let s1 := remove_ugen s (uid UB) in
-          do2 s2, rv <- sum3_new1 s1 (nth_in UB 0) (nth_in UB 1) a;
-          do2 s3, r <- adopt s2 self rv (uid UB); Ok (s3, Some r)
+      | Some UB => absorb s self UB (fun s1 => sum3_new1 s1 (nth_in UB 0) (nth_in UB 1) a)
       | None => Ok (s, None)
       end
   end.
@@ -575,35 +584,25 @@ Definition opt_sum4 (s : st) (self : unit) : res (st * option nat) :=
   let a := nth_in self 0 in let b := nth_in self 1 in
   if inp_eqb a b then Ok (s, None) else
   if rate_eqb (vrate s a) Demand || rate_eqb (vrate s b) Demand then Ok (s, None) else
-  do ta <- match direct_is s a KSum3 "" with Some UA => do o <- one_desc s UA; Ok (if o then Some UA else None) | None => Ok None end;
+  do ta <- sole s a KSum3 "";
   match ta with
-  | Some UA =>
-      let s1 := remove_ugen s (uid UA) in
-      do2 s2, rv <- sum4_new1 s1 (nth_in UA 0) (nth_in UA 1) (nth_in UA 2) b;
-      do2 s3, r <- adopt s2 self rv (uid UA); Ok (s3, Some r)
+  | Some UA => absorb s self UA (fun s1 => sum4_new1 s1 (nth_in UA 0) (nth_in UA 1) (nth_in UA 2) b)
   | None =>
-      do tb <- match direct_is s b KSum3 "" with Some UB => do o <- one_desc s UB; Ok (if o then Some UB else None) | None => Ok None end;
+      do tb <- sole s b KSum3 "";
       match tb with
-      | Some UB =>
-          let s1 := remove_ugen s (uid UB) in
-          do2 s2, rv <- sum4_new1 s1 (nth_in UB 0) (nth_in UB 1) (nth_in UB 2) a;
-          do2 s3, r <- adopt s2 self rv (uid UB); Ok (s3, Some r)
+      | Some UB => absorb s self UB (fun s1 => sum4_new1 s1 (nth_in UB 0) (nth_in UB 1) (nth_in UB 2) a)
       | None => Ok (s, None)
       end
   end.
 
 (* one side of _optimize_to_muladd: x = the product, y = the other operand *)
 Definition muladd_side (s : st) (self : unit) (x y : inp) : res (st * option nat) :=
-  do tx <- match direct_is s x KBin "*" with Some UX => do o <- one_desc s UX; Ok (if o then Some UX else None) | None => Ok None end;
+  do tx <- sole s x KBin "*";
   match tx with
   | Some UX =>
       let x0 := nth_in UX 0 in let x1 := nth_in UX 1 in
-      if can_be_muladd s x0 x1 y then
-        let s1 := remove_ugen s (uid UX) in
-        do2 s2, rv <- ctor_muladd s1 x0 x1 y; do2 s3, r <- adopt s2 self rv (uid UX); Ok (s3, Some r)
-      else if can_be_muladd s x1 x0 y then
-        let s1 := remove_ugen s (uid UX) in
-        do2 s2, rv <- ctor_muladd s1 x1 x0 y; do2 s3, r <- adopt s2 self rv (uid UX); Ok (s3, Some r)
+      if can_be_muladd s x0 x1 y then absorb s self UX (fun s1 => ctor_muladd s1 x0 x1 y)
+      else if can_be_muladd s x1 x0 y then absorb s self UX (fun s1 => ctor_muladd s1 x1 x0 y)
       else Ok (s, None)
   | None => Ok (s, None)
   end.
@@ -616,19 +615,13 @@ Definition opt_muladd (s : st) (self : unit) : res (st * option nat) :=
 Definition opt_addneg (s : st) (self : unit) : res (st * option nat) :=
   let a := nth_in self 0 in let b := nth_in self 1 in
   if inp_eqb a b then Ok (s, None) else
-  do tb <- match direct_is s b KUn "neg" with Some UB => do o <- one_desc s UB; Ok (if o then Some UB else None) | None => Ok None end;
+  do tb <- sole s b KUn "neg";
   match tb with
-  | Some UB =>
-      let s1 := remove_ugen s (uid UB) in
-      do2 s2, rv <- ctor_bin s1 "-" a (nth_in UB 0);
-      do2 s3, r <- adopt s2 self rv (uid UB); Ok (s3, Some r)
+  | Some UB => absorb s self UB (fun s1 => ctor_bin s1 "-" a (nth_in UB 0))
   | None =>
-      do ta <- match direct_is s a KUn "neg" with Some UA => do o <- one_desc s UA; Ok (if o then Some UA else None) | None => Ok None end;
+      do ta <- sole s a KUn "neg";
       match ta with
-      | Some UA =>
-          let s1 := remove_ugen s (uid UA) in
-          do2 s2, rv <- ctor_bin s1 "-" b (nth_in UA 0);
-          do2 s3, r <- adopt s2 self rv (uid UA); Ok (s3, Some r)
+      | Some UA => absorb s self UA (fun s1 => ctor_bin s1 "-" b (nth_in UA 0))
       | None => Ok (s, None)
       end
   end.
@@ -643,60 +636,96 @@ Definition opt_add (s : st) (self : unit) : res st :=
 
 Section Strict.
 Variable strict : bool.    (* true: `input._descendants.remove(self)` ; false: `.discard(self)` *)
+Variable guard : bool.     (* true: `if self._synthdef._children[input._synth_index] is input:` before
+                              `input._optimize_graph()` in _perform_dead_code_elimination *)
 
-(* ugen._optimize_graph(), with _perform_dead_code_elimination inlined *)
-Fixpoint opt_unit (fuel : nat) (s : st) (u : nat) : res st :=
-  match fuel with
-  | 0 => Err EFuel
-  | S f =>
-    match get_unit s u with
-    | None => Err EInternal
-    | Some U =>
+(* Python list indexing self._children[i] (negative indices count from the end; None = IndexError) *)
+Definition child_at (s : st) (i : Z) : option (option nat) :=
+  let n := Z.of_nat (List.length (children s)) in
+  let j := if (i <? 0)%Z then (i + n)%Z else i in
+  if (j <? 0)%Z || (n <=? j)%Z then None else nth_error (children s) (Z.to_nat j).
+Definition is_child (s : st) (V : unit) : option bool :=
+  match child_at s (sidx V) with
+  | None => None
+  | Some c => Some (match c with Some w => Nat.eqb w (uid V) | None => false end)
+  end.
+
+(* the loop of _perform_dead_code_elimination over the tuple `self.inputs` read at its start;
+   `rec` = _optimize_graph of an input *)
+Fixpoint dce_loop (rec : st -> nat -> res st) (u : nat) (s0 : st) (l : list inp) : res st :=
+  match l with
+  | [] => Ok s0
+  | K _ :: t => dce_loop rec u s0 t
+  | O v _ :: t =>
+      match get_unit s0 v with
+      | None => Err EInternal
+      | Some V =>
+          if isugen V && negb (multi V) then
+            match dref V with
+            | Some r =>
+                let d := get_set s0 r in
+                if Nat.eqb (List.length d) 0 then dce_loop rec u s0 t
+                else if strict && negb (mem u d) then Err EKey
+                else
+                  let s1 := put_set s0 r (set_discard u d) in
+                  if guard then
+                    match is_child s1 V with
+                    | None => Err EException
+                    | Some true => do s2 <- rec s1 v; dce_loop rec u s2 t
+                    | Some false => dce_loop rec u s1 t
+                    end
+                  else do s2 <- rec s1 v; dce_loop rec u s2 t
+            | None => dce_loop rec u s0 t
+            end
+          else dce_loop rec u s0 t
+      end
+  end.
+
+(* BinaryOpUGen._optimize_sub up to (and including) _replace_ugen *)
+Definition sub_rewrite (s : st) (U : unit) : res (option (st * nat)) :=
+  let a := nth_in U 0 in let b := nth_in U 1 in
+  do tb <- sole s b KUn "neg";
+  match tb with
+  | Some UB =>
+      do2 s3, ro <- absorb s U UB (fun s1 => ctor_bin s1 "+" a (nth_in UB 0));
+      match ro with
+      | Some r => do s4 <- replace_ugen s3 (uid U) r; Ok (Some (s4, r))
+      | None => Err EInternal
+      end
+  | None => Ok None
+  end.
+(* ... followed by `replacement._optimize_graph()` *)
+Definition opt_sub (rec : st -> nat -> res st) (s : st) (U : unit) : res st :=
+  do o <- sub_rewrite s U;
+  match o with
+  | Some (s4, r) => rec s4 r
+  | None => Ok s
+  end.
+
+(* ugen._optimize_graph() for the unit object u, `rec` = the same one level down *)
+Definition opt_body (rec : st -> nat -> res st) (s : st) (u : nat) : res st :=
+  match get_unit s u with
+  | None => Err EInternal
+  | Some U =>
       if negb (pure U) then Ok s else
       let dead := match desc_of s U with Some l => Nat.eqb (List.length l) 0 | None => true end in
       if dead then
-        do s1 <- (fix loop (s0 : st) (l : list inp) : res st :=
-                    match l with
-                    | [] => Ok s0
-                    | K _ :: t => loop s0 t
-                    | O v _ :: t =>
-                        match get_unit s0 v with
-                        | None => Err EInternal
-                        | Some V =>
-                            if isugen V && negb (multi V) then
-                              match dref V with
-                              | Some r =>
-                                  let d := get_set s0 r in
-                                  if Nat.eqb (List.length d) 0 then loop s0 t
-                                  else if strict && negb (mem u d) then Err EKey
-                                  else do s2 <- opt_unit f (put_set s0 r (set_discard u d)) v; loop s2 t
-                              | None => loop s0 t
-                              end
-                            else loop s0 t
-                        end
-                    end) s (ins U);
+        do s1 <- dce_loop rec u s (ins U);
         Ok (remove_ugen s1 u)
       else
         match ukind U with
         | KBin =>
             if String.eqb (opname U) "+" then opt_add s U
-            else if String.eqb (opname U) "-" then
-              (* _optimize_sub *)
-              let a := nth_in U 0 in let b := nth_in U 1 in
-              do tb <- match direct_is s b KUn "neg" with Some UB => do o <- one_desc s UB; Ok (if o then Some UB else None) | None => Ok None end;
-              match tb with
-              | Some UB =>
-                  let s1 := remove_ugen s (uid UB) in
-                  do2 s2, rv <- ctor_bin s1 "+" a (nth_in UB 0);
-                  do2 s3, r <- adopt s2 U rv (uid UB);
-                  do s4 <- replace_ugen s3 u r;
-                  opt_unit f s4 r
-              | None => Ok s
-              end
+            else if String.eqb (opname U) "-" then opt_sub rec s U
             else Ok s
         | _ => Ok s
         end
-    end
+  end.
+
+Fixpoint opt_unit (fuel : nat) (s : st) (u : nat) : res st :=
+  match fuel with
+  | 0 => Err EFuel
+  | S f => opt_body (opt_unit f) s u
   end.
 
 (* the exact user set of a live single-output non-width-first UGen: what the rewrites'
@@ -716,21 +745,30 @@ Definition desc_inv_ok (s : st) : bool :=
                                 else true
                     | None => false end) (live s).
 
-(* SynthDef._optimize_graph; returns also whether desc_inv held after every step (a test) *)
+(* SynthDef._index_ugens *)
+Definition index_ugens (s : st) : st :=
+  fst (fold_left (fun '(sa, i) u => match get_unit sa u with
+                                     | Some U => (put_unit sa (set_sidx U i), (i + 1)%Z)
+                                     | None => (sa, (i + 1)%Z) end) (live s) (s, 0%Z)).
+
+(* `for ugen in self._children[:]: ugen._optimize_graph()`; the flag records whether desc_inv held
+   after every step (a test) *)
+Fixpoint opt_loop (fuel : nat) (s : st) (l : list nat) (ok : bool) : res (st * bool) :=
+  match l with
+  | [] => Ok (s, ok)
+  | u :: t => do sb <- opt_unit fuel s u; opt_loop fuel sb t (ok && desc_inv_ok sb)
+  end.
+Definition opt_fuel (s : st) : nat := let n := List.length (units s) in S (4 * n * n + 8).
+
+(* SynthDef._optimize_graph *)
 Definition optimize (s : st) : res (st * bool) :=
-  do2 s0, _ <- init_topo s;
+  do2 s0, unused <- init_topo s;
   let s1 := with_rewriting s0 true in
-  let n := List.length (units s1) in
-  let fuel := S (4 * n * n + 8) in
-  do2 s2, ok <- fold_left (fun acc u => do2 sa, ok <- acc; do sb <- opt_unit fuel sa u; Ok (sb, ok && desc_inv_ok sb))
-                            (live s1) (Ok (s1, desc_inv_ok s1));
+  do2 s2, ok <- opt_loop (opt_fuel s1) s1 (live s1) (desc_inv_ok s1);
   let s3 := with_rewriting s2 false in
   let old := List.length (children s3) in
   let s4 := with_children s3 (map Some (live s3)) in
-  if Nat.eqb old (List.length (children s4)) then Ok (s4, ok)
-  else Ok (fst (fold_left (fun '(sa, i) u => match get_unit sa u with
-                                              | Some U => (put_unit sa (set_sidx U i), (i + 1)%Z)
-                                              | None => (sa, (i + 1)%Z) end) (live s4) (s4, 0%Z)), ok).
+  if Nat.eqb old (List.length (children s4)) then Ok (s4, ok) else Ok (index_ugens s4, ok).
 End Strict.
 
 (* ------------------------------------------------------------------ constants, input checks *)
@@ -798,10 +836,7 @@ Definition topological_sort (s : st) : res st :=
   do2 s1, ante <- init_topo s;
   let avail := flat_map (fun u => match assoc_get u ante with Some [] => [u] | _ => [] end) (rev (live s1)) in
   do out <- topo_loop (S (S (List.length (live s1)))) s1 ante avail [];
-  let s2 := with_children s1 (map Some out) in
-  Ok (fst (fold_left (fun '(sa, i) u => match get_unit sa u with
-                                         | Some U => (put_unit sa (set_sidx U i), (i + 1)%Z)
-                                         | None => (sa, (i + 1)%Z) end) out (s2, 0%Z))).
+  Ok (index_ugens (with_children s1 (map Some out))).
 
 (* ------------------------------------------------------------------ the emitted graph *)
 Inductive ginp := GK (q : Q) | GO (idx : Z) (ch : nat).
@@ -818,15 +853,15 @@ Definition emit (s : st) (consts : list Q) : graph :=
        consts (controls s).
 
 (* SynthDef._build: returns the graph and the desc_inv test flag *)
-Definition compile_flag (strict : bool) (p : prog) : res (graph * bool) :=
+Definition compile_flag (strict guard : bool) (p : prog) : res (graph * bool) :=
   do s1 <- build_graph p;
-  do2 s2, ok <- optimize strict s1;
+  do2 s2, ok <- optimize strict guard s1;
   let consts := collect_constants s2 in
   if negb (check_inputs s2) then Err EValue else
   do s3 <- topological_sort s2;
   Ok (emit s3 consts, ok).
-Definition compile (strict : bool) (p : prog) : res graph :=
-  do2 g, _ <- compile_flag strict p; Ok g.
+Definition compile (strict guard : bool) (p : prog) : res graph :=
+  do2 g, unused <- compile_flag strict guard p; Ok g.
 
 End WithTables.
 
